@@ -282,5 +282,22 @@ func closeRace(dir string, seed int64) string {
 			return fmt.Sprintf("these calls never returned within 10 s: %v (reader open, Close called, new reader arrives while Close waits, first reader ends)", names)
 		}
 	}
+	// after Close: every further write attempt must return at once (ErrDatabaseNotOpen) — a path
+	// that returns with a lock held shows only at the SECOND attempt
+	after := make(chan string, 4)
+	go func() {
+		for i := 0; i < 3; i++ {
+			_ = db.Update(func(tx *bolt.Tx) error { return nil })
+			_, _ = db.Begin(true)
+			_ = db.Batch(func(tx *bolt.Tx) error { return nil })
+		}
+		_ = db.Close()
+		after <- "done"
+	}()
+	select {
+	case <-after:
+	case <-time.After(10 * time.Second):
+		return "after Close, repeated Update/Begin(true)/Batch/Close calls on the closed database do not return within 10 s (a lock is still held)"
+	}
 	return ""
 }
